@@ -35,6 +35,17 @@ def gen_case(rng):
         c.pop("dtypes", None)
         c["vast"] = True
         c["tags"] = ["vast"]
+    if not c.get("vast") and rng.random() < 0.12:
+        # another unit of measurement (nano / pico): one criterion or all of them on a tiny scale; a power of two, so
+        # the values stay exactly as far apart, relatively, as before
+        m_ = len(c["weights"])
+        cols = range(m_) if rng.random() < 0.4 else [rng.randrange(m_)]
+        k = rng.choice([2.0 ** -30, 2.0 ** -40, 2.0 ** -34])
+        for j in cols:
+            for r in c["matrix"]:
+                r[j] *= k
+        c.pop("dtypes", None)
+        c["tags"] = list(c["tags"]) + ["tiny_unit"]
     steps, pos = [], positive
     for _ in range(rng.randint(1, 4)):
         name = rng.choice(ANY + (POS if pos else []))
